@@ -112,6 +112,12 @@ def audit(prop_module, theorems):
     return ok, report
 
 
+def leanchecker(modules):
+    """independent re-check of the compiled .olean files (thorough tier). returns (ok, log)"""
+    rc, out, err = sh(["lake", "env", "leanchecker"] + modules, cwd=LEAN, timeout=3600)
+    return rc == 0, (out + err)[-2000:]
+
+
 def list_theorems(prop_module, namespace):
     src = strip_comments(open(module_files(prop_module)).read())
     return [f"{namespace}.{n}" for n in re.findall(r"^theorem\s+([\w.']+)", src, flags=re.M)]
